@@ -5,8 +5,8 @@ gnn_classifier.py (`forward`, `_compute_predictions`), neighbor_sampler.py (`Uni
 
 Scalar-generic: the driver runs it at `Float` (float64, as numpy), the property file instantiates it at `ℝ`.
 A matrix is its shape and its rows; every matrix the code creates is a `Mat.mk'` (a `tab` of `tab`s).
-Where numpy/scipy raise (dimension mismatch of a product, label out of range, arg-max of an empty row) the model
-returns the error.
+Where numpy/scipy raise (dimension mismatch of a product, label out of range, arg-max of an empty row, a container
+`check_format` refuses) the model returns the error.
 -/
 import SkNet.Model.Basic
 
@@ -68,6 +68,20 @@ def csrToMat (m : Csr α) : Mat α :=
   Mat.mk' m.nRow m.nCol fun i j =>
     ((m.rowRange i).map fun p => if m.indices.getD p 0 == j then m.data.getD p 0 else 0).sum
 
+/-! ### containers (`utils/check.py: check_format`) -/
+
+/-- the type of the object handed in as a matrix: `check_format` accepts exactly `csr_matrix`, `csc_matrix`,
+`coo_matrix`, `lil_matrix` and `np.ndarray` (tested with `type(x) in formats`); everything else (`csr_array`,
+`np.matrix`, `dok_matrix`, `bsr_matrix`, `dia_matrix`, a list, …) is `other` -/
+inductive Container | csrMatrix | cscMatrix | cooMatrix | lilMatrix | ndarray | other
+deriving DecidableEq, Repr
+
+/-- `check_format(input_matrix, allow_empty=True)`: a `TypeError` for a refused container, otherwise the CSR matrix
+of the same entries (the denotation is what the rest of the model works on) -/
+def checkFormat : Container → Except PyErr Unit
+  | .other => .error .typeError
+  | _ => .ok ()
+
 /-! ### `Convolution.forward` -/
 
 inductive Norm | left | right | both | none
@@ -108,7 +122,8 @@ def normalize (norm : Norm) (A : Mat α) : Except PyErr (Mat α) :=
       matmul t dinv
   | .none => .ok A
 
-/-- `embedding += self.bias` (bias of shape `(1, out_channels)`) -/
+/-- `embedding += self.bias` (bias of shape `(1, out_channels)`, as `_initialize_weights` creates it; numpy would also
+    broadcast a bias of length 1 — not modelled, unreachable through the public API) -/
 def addBias (E : Mat α) (b : List α) : Except PyErr (Mat α) :=
   if b.length ≠ E.c then .error .valueError
   else .ok (Mat.mk' E.r E.c fun i k => E.get i k + b.getD k 0)
@@ -142,7 +157,8 @@ def actOutput (a : Act) (S : Mat α) : Mat α :=
   | .sigmoid => Mat.mk' S.r S.c fun i j => sigmoid (S.get i j)
   | .softmax => Mat.mk' S.r S.c fun i j => (softmaxRow (S.row i)).getD j 0
 
-/-- `activation.gradient(signal, direction)` (same shapes) -/
+/-- `activation.gradient(signal, direction)` for a direction of the signal's shape (numpy would also broadcast a
+    `(1, c)` or `(n, 1)` direction — not modelled; `backward` always passes the signal's shape) -/
 def actGradient (a : Act) (S D : Mat α) : Except PyErr (Mat α) :=
   if S.r ≠ D.r ∨ S.c ≠ D.c then .error .valueError
   else
@@ -172,6 +188,11 @@ def forward (cfg : LayerCfg) (A X W : Mat α) (b : Option (List α)) : Except Py
     | some b => addBias embedding b
     | none => pure embedding
   pure (actOutput cfg.act embedding)
+
+/-- `Convolution.forward` on an adjacency handed in as container `k`: `check_format` first -/
+def forwardIn (k : Container) (cfg : LayerCfg) (A X W : Mat α) (b : Option (List α)) : Except PyErr (Mat α) := do
+  checkFormat k
+  forward cfg A X W b
 
 /-- one layer with its trained parameters -/
 structure Layer (α : Type) where
@@ -242,17 +263,27 @@ def bceLoss (S : Mat α) (labels : List Nat) : Except PyErr α := do
     pure (value / n)
 
 /-- `BinaryCrossEntropy.loss_gradient` as on the pinned tree (before the repair of F14):
-    `(probs.T - labels).T` for any number of channels -/
+    `(probs.T - labels).T` for any number of channels (labels of the signal's length) -/
 def bceLossGradientPinned (S : Mat α) (labels : List Nat) : Except PyErr (Mat α) :=
   if labels.length ≠ S.r then .error .valueError
   else
     let P := actOutput .sigmoid S
     .ok (Mat.mk' S.r S.c fun i k => P.get i k - nat (labels.getD i 0))
 
+/-- `BinaryCrossEntropy.loss_gradient` with one channel, `(probs.T - labels).T`, with numpy's broadcasting of a
+`(1, n)` row against `m` labels: the usual case `m = n`; one label is subtracted from every sample; one sample against
+`m` labels gives an `m × 1` matrix; anything else is numpy's `ValueError` -/
+def bceGradOneChannel (S : Mat α) (labels : List Nat) : Except PyErr (Mat α) :=
+  let P := actOutput .sigmoid S
+  if labels.length = S.r then .ok (Mat.mk' S.r 1 fun i k => P.get i k - nat (labels.getD i 0))
+  else if labels.length = 1 then .ok (Mat.mk' S.r 1 fun i k => P.get i k - nat (labels.getD 0 0))
+  else if S.r = 1 then .ok (Mat.mk' labels.length 1 fun i _ => P.get 0 0 - nat (labels.getD i 0))
+  else .error .valueError
+
 /-- `BinaryCrossEntropy.loss_gradient(signal, labels)` (repaired): the label itself with one channel,
     its one-hot encoding with several channels -/
 def bceLossGradient (S : Mat α) (labels : List Nat) : Except PyErr (Mat α) :=
-  if S.c = 1 then bceLossGradientPinned S labels
+  if S.c = 1 then bceGradOneChannel S labels
   else do
     labelsOk S labels
     let P := actOutput .sigmoid S
@@ -314,10 +345,22 @@ def lossAct : LossKind → Act
   | .crossEntropy => .softmax
   | .binaryCrossEntropy => .sigmoid
 
-/-- `self.normalization = normalization.lower()`; `forward` knows 'left', 'right', 'both' -/
-def getNorm (name : String) : Norm :=
-  let n := name.toLower
-  if n == "left" then .left else if n == "right" then .right else if n == "both" then .both else .none
+/-- `self.normalization = normalization.lower()` (`None` stays `None`, repaired); `forward` knows 'left', 'right',
+'both' — `None` and any other string mean "no normalisation" on a bare layer -/
+def getNorm (name : Option String) : Norm :=
+  match name with
+  | none => .none
+  | some name =>
+    let n := name.toLower
+    if n == "left" then .left else if n == "right" then .right else if n == "both" then .both else .none
+
+/-- `check_normalizations` of `GNNClassifier` (one entry per given value): a string must be 'left', 'right' or 'both'
+in any case; `None` (documented: no normalisation) passes (repaired) -/
+def checkNormalizations (names : List (Option String)) : Except PyErr Unit :=
+  if names.all (fun nm => match nm with
+      | none => true
+      | some s => let n := s.toLower; n == "left" || n == "right" || n == "both") then .ok ()
+  else .error .valueError
 
 /-- The decisions of `get_layer` + `BaseLayer.__init__` + `check_loss` on the parsed arguments: `isSage` / `isConv` =
 'sage' / 'conv' occurs in the lower-cased layer name, `act` / `loss` = what `get_activation` / `get_loss` answered.
@@ -340,7 +383,7 @@ def resolveParsed (isSage isConv : Bool) (act : Except PyErr Act) (loss : Option
 
 /-- `get_layer(layer, activation=…, normalization=…, self_embeddings=…, loss=…)` for a string `layer`, followed by
 `check_loss` when it carries a loss.  Returns the configuration of the layer and the loss it carries (if any). -/
-def resolveLayer (layer activation : String) (loss : Option String) (normalization : String) (selfEmb : Bool)
+def resolveLayer (layer activation : String) (loss : Option String) (normalization : Option String) (selfEmb : Bool)
     (outChannels : Nat) : Except PyErr (LayerCfg × Option LossKind) :=
   let name := layer.toLower
   resolveParsed (hasSub name "sage") (hasSub name "conv") (getActivation activation) (loss.map getLoss)
@@ -353,15 +396,20 @@ def checkOutput (nChannels : Nat) (labels : List Nat) : Except PyErr Unit :=
 
 /-! ### `UniformNeighborSampler.__call__` -/
 
-/-- The sampled adjacency: in row `i` (stored positions `0 … deg-1`) the data are zeroed, the chosen positions
-    `choice[i]` are set to 1 and `eliminate_zeros()` drops the rest.  Returns the column indices kept per row
-    (all data are 1).  `choice[i]` is what `np.random.choice(deg, min(deg, sample_size), replace=False)` returned. -/
-def sampleRows (indptr indices : List Nat) (nRow : Nat) (choice : List (List Nat)) : List (List Nat) :=
-  tab nRow fun i =>
-    let lo := indptr.getD i 0
-    let deg := indptr.getD (i+1) 0 - lo
-    let ch := choice.getD i []
-    ((List.range deg).filter fun p => ch.contains p).map fun p => indices.getD (lo + p) 0
+/-- `eliminate_zeros()` on one stored row of (column, value) pairs (repaired: before sampling) -/
+def dropZeros (row : List (Nat × α)) : List (Nat × α) := row.filter fun e => !(eqb e.2 0)
+
+/-- One row of the sampled adjacency: the stored non-zero entries are the neighbours (positions `0 … deg-1`), their
+data are zeroed, the chosen positions `ch` are set to 1 and `eliminate_zeros()` drops the rest.  Returns the column
+indices kept (all data are 1: the weights are not kept).  `ch` is what
+`np.random.choice(deg, min(deg, sample_size), replace=False)` returned. -/
+def sampleRow (row : List (Nat × α)) (ch : List Nat) : List Nat :=
+  let nz := dropZeros row
+  ((List.range nz.length).filter fun p => ch.contains p).map fun p => (nz.getD p (0, 0)).1
+
+/-- `UniformNeighborSampler.__call__` on the CSR rows of the adjacency (any container is converted to CSR first) -/
+def sampleRows (rows : List (List (Nat × α))) (choice : List (List Nat)) : List (List Nat) :=
+  tab rows.length fun i => sampleRow (rows.getD i []) (choice.getD i [])
 
 /-- `np.random.choice(size, size=min(size, sample_size), replace=False)` returned a legal sample -/
 def choiceOk (deg sampleSize : Nat) (ch : List Nat) : Bool :=
